@@ -112,6 +112,39 @@ class P(Prop):
                     a[i], b[i] = rng.choice([1.0, 1e300]), a[i]
                 out.append(dict(op="approx", ty=ty, a=[C.bits(x) for x in a], b=[C.bits(x) for x in b], eps=C.bits(eps), rel=C.bits(max(rel, 1e-3)),
                                 meta={"class": "approx/infinite_lane/" + kind}))
+        # several lanes, each acceptable for a DIFFERENT reason: a small number moved inside the absolute tolerance only, a large one
+        # inside the relative tolerance only; and tolerances / differences whose squares leave the binary64 range
+        for ty in TYPES:
+            n = G.arity(ty)
+            if n < 2:
+                continue
+            for _ in range(1 if tier == "quick" else 8):
+                eps, rel = rng.choice([(1e-3, 1e-3), (EPS, EPS), (1e-9, 1e-3), (0.5, 1e-9)])
+                i, j = rng.sample(range(n), 2)
+                a = [rng.choice([1.0, -2.0, 0.5]) for _ in range(n)]
+                a[i] = eps * rng.choice([0.1, 0.25])             # small: only the absolute test can accept a move of eps/2
+                a[j] = rng.choice([1e6, -3e8, 1e12])             # large: only the relative test can accept a move of rel/2
+                b = list(a)
+                b[i] = a[i] + eps * 0.5
+                b[j] = a[j] * (1 + rel * 0.5)
+                out.append(dict(op="approx", ty=ty, a=[C.bits(x) for x in a], b=[C.bits(x) for x in b], eps=C.bits(eps), rel=C.bits(rel),
+                                meta={"class": "approx/mixed_abs_rel"}))
+            for _ in range(1 if tier == "quick" else 8):
+                i = rng.randrange(n)
+                a = [rng.choice([1.0, -2.0, 0.5]) for _ in range(n)]
+                st = rng.choice(["tiny_distinct", "tiny_distinct", "huge_eps"])
+                if st == "tiny_distinct":
+                    eps = rng.choice([0.0, 1e-200, 5e-324])
+                    a[i] = rng.choice([1e-170, 3e-310, 2e-200])
+                    b = list(a)
+                    b[i] = a[i] * rng.choice([3.0, -1.0, 0.25])
+                else:
+                    eps = rng.choice([1e300, 2e154, 1.5e200])
+                    a[i] = 0.0
+                    b = list(a)
+                    b[i] = rng.choice([1.5, 4.0]) * eps if eps < 1e300 else 1.7e308
+                out.append(dict(op="approx", ty=ty, a=[C.bits(x) for x in a], b=[C.bits(x) for x in b], eps=C.bits(eps), rel=C.bits(0.0),
+                                meta={"class": "approx/" + st}))
         for _ in range(40 if tier == "quick" else 600):
             ty = rng.choice(G.ALL_TYPES)
             n = G.arity(ty)
